@@ -39,10 +39,10 @@ impl C07 {
             n_alpha: 512,
             // final-byte padding: 8 bit offsets x 256 fills, 64 streams per case; stored padding likewise
             n_pad: 64,
-            n_hdr: scaled(tier.pick(300, 6_000), scale),
-            n_gen: scaled(tier.pick(4_000, 200_000), scale),
-            n_comp: scaled(tier.pick(1_000, 50_000), scale),
-            n_shape: scaled(tier.pick(48, 1_600), scale),
+            n_hdr: scaled(tier.pick(2_000, 50_000), scale),
+            n_gen: scaled(tier.pick(40_000, 1_000_000), scale),
+            n_comp: scaled(tier.pick(8_000, 200_000), scale),
+            n_shape: scaled(tier.pick(160, 3_200), scale),
         }
     }
 
